@@ -109,10 +109,12 @@ def _c09_sweeps():
     npush = lambda c: sum(o in ("P", "T") for th in c for o in th)
     bqthr = [{"prog": prog_str(t, num), "cap": 2, "throwat": k} for t in thread_programs(["P", "Q", "T", "G"], 3, 2, keep=lambda c: npush(c) >= 2 and any(o == "Q" for th in c for o in th)) if bq_completes(t, 2, 0, 1) for k in (1, 2)]
     bqthr2 = [{"prog": prog_str(t, num), "cap": 2, "throwat": k} for t in thread_programs(["P", "Q", "T", "G"], 2, 2, keep=lambda c: npush(c) >= 2 and any(o == "Q" for th in c for o in th)) if bq_completes(t, 2, 0, 1) for k in (1, 2)]
+    bqthr1 = [{"prog": prog_str(t, num), "cap": 1, "throwat": 1} for t in thread_programs(["P", "Q", "T", "G"], 2, 2, keep=lambda c: npush(c) >= 2) if bq_completes(t, 1, 0, 1)]
     qthr = [{"prog": prog_str(t, num), "throwat": k, "big": b} for b in (0, 1) for t in thread_programs(["P", "G"], 3, 2, keep=lambda c: npush(c) >= 2) for k in (1, 2)]
     return [
         sweep("sweep-bq-throw-2x2", "c09_queue", (2, 3), bqthr2, {"bounded": 1}, what="capacity 2, two threads, programs with a blocking pop and at least two pushes that cannot block forever even if one push fails; the first / second element copy throws (a blocked pop must be woken by the next successful push)", tiers=("quick", "thorough")),
         sweep("sweep-bq-throw-3x2", "c09_queue", (1, 2), bqthr, {"bounded": 1}, what="same with three threads", weight=2.0),
+        sweep("sweep-bq-throw-cap1", "c09_queue", (1, 2), bqthr1, {"bounded": 1}, what="capacity 1, two threads, every pair of sequences with at least two pushes, the first element copy throws; executions that the recorded finding (invalid entry counts against the capacity) explains are reported as KNOWN-FINDING, anything else as a violation", tiers=("quick", "thorough")),
         sweep("sweep-q-throw", "c09_queue", (1, 2), qthr, what="concurrent_queue: programs with at least two pushes; the first / second element copy throws; small and page-sized elements"),
         sweep("sweep-q-3x2", "c09_queue", (1, 2), q32, what="concurrent_queue: every assignment of push/try_pop sequences of length 1-2 to three threads", tiers=("quick", "thorough")),
         sweep("sweep-q-2x3", "c09_queue", (2, 3), q23, what="concurrent_queue: every pair of push/try_pop sequences of length 1-3"),
@@ -411,6 +413,8 @@ def _c02():
         L.append(leg(name, "c02_monitor@tso", b, prm, flags=("-fp", "-tso"), what="concurrent_monitor under x86-TSO store buffers; the condition is set by a plain store, so only the monitor's own fences order it before the wait-set test"))
     L.append(leg("bq-block", "c09_queue", (2, 3), {"prog": "P1,P2|Q,Q", "bounded": 1, "cap": 1}, what="concurrent_bounded_queue capacity 1: blocked push vs pop and blocked pop vs push"))
     L.append(leg("bq-3", "c09_queue", (2, 2), {"prog": "P1|P2|Q,Q", "bounded": 1, "cap": 1}, what="two blocked pushers, one popper"))
+    L.append(leg("bq-failed-push", "c09_queue", (2, 3), {"prog": "Q|P1,P2", "bounded": 1, "cap": 4, "throwat": 1}, what="a pop sleeps on an empty queue, the next push fails (element constructor throws), the push after it succeeds: the sleeper must be woken"))
+    L.append(leg("bq-failed-push2", "c09_queue", (2, 2), {"prog": "Q|Q|P1,P2,P3", "bounded": 1, "cap": 4, "throwat": 2}, what="two sleeping pops, the second of three pushes fails"))
     L.append(leg("mutex-sleep", "c08_mutex", (2, 3), {"kind": "mutex", "prog": "W,W|W|W"}, what="tbb::mutex futex sleeping path"))
     L.append(leg("rw_mutex-sleep", "c08_mutex", (2, 3), {"kind": "rw", "prog": "W|R,W|U"}, what="tbb::rw_mutex sleeping path"))
     for k, what, b in [("wait_sleep", "external waiter asleep in task_group::wait while a worker finishes the last task", (2, 3)),
@@ -674,3 +678,7 @@ PROPS["C15"] = {
     "rule": VTBB_RULE + "; rt legs: every schedule within the deviation bound on the real scheduler",
     "legs": _c15(),
 }
+
+# properties whose thorough tier contains program sweeps get a longer wall-clock budget (a run that reaches it stops with exhaustive=false)
+for _p in ("C08", "C09", "C10", "C11", "C12", "C13"):
+    PROPS[_p]["budget"] = {"thorough": 1500.0}
